@@ -2,5 +2,5 @@ INIT Init
 NEXT Next
 CONSTANTS
   Depth = 3
-  Shapes = {0, 2}
+  Shapes = {0, 2, 7}
 INVARIANTS DesignOK EmitVec
